@@ -1,0 +1,28 @@
+//! Verification hooks; compiled only with `--cfg tarpc_verif`. Nothing here changes behaviour
+//! unless a callback is installed.
+
+use std::cell::RefCell;
+
+thread_local! {
+    static YIELD_HOOK: RefCell<Option<Box<dyn FnMut(&'static str, u64)>>> = RefCell::new(None);
+}
+
+/// Installs (or removes) the callback run at every yield point of the current thread.
+pub fn set_yield_hook(hook: Option<Box<dyn FnMut(&'static str, u64)>>) {
+    YIELD_HOOK.with(|h| *h.borrow_mut() = hook);
+}
+
+/// A point at which the verification harness may run other tasks.
+pub fn yield_point(name: &'static str, request_id: u64) {
+    // Take the hook out while it runs so that a nested yield point is a no-op.
+    let hook = YIELD_HOOK.with(|h| h.borrow_mut().take());
+    if let Some(mut hook) = hook {
+        hook(name, request_id);
+        YIELD_HOOK.with(|h| {
+            let mut slot = h.borrow_mut();
+            if slot.is_none() {
+                *slot = Some(hook);
+            }
+        });
+    }
+}
